@@ -15,10 +15,12 @@ Types == {"direct-tcp-v1", "tor-tcp-v1", "relay-v1", "unknown-v9", "missing", "n
 SubKinds == {"missing", "null", "int", "str", "dict", "list"}
 
 \* a TCP-style (sub)hint
-Tcp(t, h, p, pr) == [type |-> t, hostname |-> h, port |-> p, priority |-> pr, subkind |-> "missing", sub |-> <<>>]
+\* twin: this hint names the very same endpoint (same hostname, port and priority values) as the hint before it in the list
+Tcp(t, h, p, pr) == [type |-> t, hostname |-> h, port |-> p, priority |-> pr, subkind |-> "missing", sub |-> <<>>, twin |-> FALSE]
+Twin(h) == [h EXCEPT !.twin = TRUE]
 \* a relay hint whose "hints" member has kind sk; when sk = "list" its elements are `sub` (records, or "nonobj")
-Relay(sk, sub) == [type |-> "relay-v1", hostname |-> "missing", port |-> "missing", priority |-> "missing", subkind |-> sk, sub |-> sub]
-NonObj == [type |-> "nonobj", hostname |-> "missing", port |-> "missing", priority |-> "missing", subkind |-> "missing", sub |-> <<>>]
+Relay(sk, sub) == [type |-> "relay-v1", hostname |-> "missing", port |-> "missing", priority |-> "missing", subkind |-> sk, sub |-> sub, twin |-> FALSE]
+NonObj == [type |-> "nonobj", hostname |-> "missing", port |-> "missing", priority |-> "missing", subkind |-> "missing", sub |-> <<>>, twin |-> FALSE]
 
 \* parse_tcp_v1_hint: a supported type, a string hostname, an integer port.  JSON true/false are
 \* integers to Python's isinstance(); the property statement says "integer port", so such a hint is
@@ -72,6 +74,15 @@ Pairs == {<<Good(p1), Good(p2)>> : p1 \in Kinds, p2 \in Kinds}
          \cup {<<Relay("list", <<Good(p1)>>), Relay("list", <<Good(p2)>>)>> : p1 \in Kinds \ {"missing"}, p2 \in Kinds \ {"missing"}}
          \cup {<<Good("float"), r>> : r \in AllRelay}
          \cup {<<Odd, Good("float")>>, <<Good("float"), Odd>>, <<Odd, Odd>>, <<Odd, Relay("list", <<Good("float")>>)>>}
+         \* the same endpoint named twice: by hints of different types (one of which this side cannot use), by the same hint
+         \* repeated, directly and through a relay - a usable hint stays usable whatever accompanies it
+         \cup {<<Tcp(t, "str", "int", pr), Twin(Good(pr))>> : t \in {"tor-tcp-v1", "unknown-v9", "direct-tcp-v1", "missing"}, pr \in {"float", "missing"}}
+         \cup {<<Good(pr), Twin(Tcp(t, "str", "int", pr))>> : t \in {"tor-tcp-v1", "unknown-v9"}, pr \in {"float", "missing"}}
+         \cup {<<Tcp("tor-tcp-v1", "str", "int", "float"), Relay("list", <<Twin(Good("float"))>>)>>,
+               <<Relay("list", <<Tcp("tor-tcp-v1", "str", "int", "float"), Twin(Good("float"))>>)>>,
+               <<Good("float"), Relay("list", <<Twin(Good("float"))>>)>>,
+               <<Relay("list", <<Tcp("tor-tcp-v1", "str", "int", "float")>>), Relay("list", <<Twin(Good("float"))>>)>>,
+               <<Relay("list", <<Good("float")>>), Relay("list", <<Twin(Tcp("tor-tcp-v1", "str", "int", "float"))>>)>>}
 Cases == {<<h>> : h \in Singles} \cup Pairs \cup {<<>>}
 
 \* the safety statement on the abstract space: whatever is dialled has a string host and an int(-like) port
